@@ -71,3 +71,14 @@ func vfPointXY(p XY) Point { return NewPoint(Coordinates{XY: p, Type: DimXY}) }
 func vfTriangle(a, b, c XY) Polygon {
 	return NewPolygon([]LineString{vfLineXY(a, b, c, a)})
 }
+
+// vfProperCross: the open segments (a,b) and (c,d) cross at a single interior
+// point of both.
+func vfProperCross(a, b, c, d XY) bool {
+	d1 := vfCross(c, d, a)
+	d2 := vfCross(c, d, b)
+	d3 := vfCross(a, b, c)
+	d4 := vfCross(a, b, d)
+	return vfAnd(vfOr(vfAnd(d1 > 0, d2 < 0), vfAnd(d1 < 0, d2 > 0)),
+		vfOr(vfAnd(d3 > 0, d4 < 0), vfAnd(d3 < 0, d4 > 0)))
+}
